@@ -10,7 +10,8 @@ CONSTANTS
     NextOff = 0
     MarkFirst = FALSE
     SaveFirst = FALSE
-    ExcuseTurn = TRUE
+    ExcuseTurn <- ExcuseFromEnv
+    EpochRechecked <- RecheckFromEnv
     GenDepth = 110
 SPECIFICATION SpecH
 INVARIANTS TypeOK OneSignaturePerBeaconK EpochKeyK AcceptedK MarkedWasPublished RegisteredIsTruthful GenPrint
